@@ -19,6 +19,7 @@ import EEM.Gen.SettingsTables
 import EEM.Model.Gate
 import EEM.Gen.Guards
 import EEM.Model.Dst
+import EEM.Model.DstSrc
 import EEM.Model.Serial
 import EEM.Model.History
 import EEM.Model.HourlyPrep
@@ -486,9 +487,32 @@ def opDst (args : List String) : String :=
         | .error _ => "err ValueError"
         | .ok ops =>
           let showOp := fun | DayOp.none => "n" | .interp h => s!"i{h}" | .mean h => s!"m{h}"
+          -- third field: the literal transcription of the source's algorithm on the index lists `_get_dst_indices` returns
+          let src := match EEM.Model.DstSrc.transformDstSrc ps (EEM.Model.DstSrc.interpOf ops) (EEM.Model.DstSrc.meanOf ops) with
+            | some out => " ".intercalate (out.map showFloat)
+            | none => "raise"
           "ok " ++ " ".intercalate (ops.map showOp) ++ " | " ++ " ".intercalate ((transformDst ops ps).map showFloat)
+            ++ " | " ++ src
       | _, _ => "bad-op"
     | none => "bad-op"
+  | _ => "bad-op"
+
+/-- `dstsrc <interp d:h,d:h,...|-> <mean d:h,...|-> <pred...>`: the literal transcription of `_transform_dst` on arbitrary
+index lists (function-level correspondence with the real `_transform_dst`) -/
+def opDstSrc (args : List String) : String :=
+  match args with
+  | i :: m :: preds =>
+    let parsePairs := fun (t : String) =>
+      if t == "-" then some ([] : List (Nat × Nat)) else
+        (t.splitOn ",").mapM fun (x : String) => match x.splitOn ":" with
+          | [d, h] => do pure ((← parseNat d), (← parseNat h))
+          | _ => none
+    match parsePairs i, parsePairs m, preds.mapM parseFloat with
+    | some i, some m, some ps =>
+      match EEM.Model.DstSrc.transformDstSrc ps i m with
+      | some out => "ok " ++ " ".intercalate (out.map showFloat)
+      | none => "raise"
+    | _, _, _ => "bad-op"
   | _ => "bad-op"
 
 open EEM.Model.Serial in
@@ -758,6 +782,7 @@ def step (line : String) : String :=
   | "lock" :: args => opLock args
   | "gate" :: args => opGate args
   | "dst" :: args => opDst args
+  | "dstsrc" :: args => opDstSrc args
   | "doc" :: args => opDoc args
   | "clusters" :: args => opClusters args
   | "hprep" :: args => opHPrep args
